@@ -9,7 +9,7 @@
   Sounds and effects are arbitrary components that are chunk-homomorphic (`Comps.ChunkHom`: rendering
   `a + b` frames = rendering `a` then `b`, the per-frame state advance every kira sound and effect has).
 -/
-import KiraModel.Proofs.ResizeLemmas
+import KiraModel.Proofs.IdleLemmas
 
 set_option linter.unusedSectionVars false
 
@@ -86,6 +86,24 @@ theorem C11_callback_partition_invariant (hC : C.LenPres) (hH : ∀ dt, C.ChunkH
   exact Renderer.specChunks_partition C V hC hH hV ch r hq _ _ (callbackChunks_bound r.ibs hibs cbs1)
     (callbackChunks_bound r.ibs hibs cbs2) (by rw [callbackChunks_sum r.ibs hibs, callbackChunks_sum r.ibs hibs, hsum])
 
+/-- **Whole device callbacks** (`on_start_processing` + `process`), no commands in flight.  If in addition
+    nothing is pending anywhere (`Mixer.Idle`: no command written, no resource in a ring, no handle dropped) and
+    the components' `on_start_processing` leaves their audio state alone and no sound finishes
+    (`Comps.StartNeutral`), then `on_start_processing` changes nothing, so any two sequences of whole device
+    callbacks with the same total length, on renderers built with any two internal buffer sizes, produce the
+    identical sample stream.  (Handles dropped before pickup, sounds finishing on persisting tracks, etc. are
+    commands in flight: their effect lands at the next callback boundary, which does depend on the partition.) -/
+theorem C11_device_callbacks_partition_invariant (hC : C.LenPres) (hH : ∀ dt, C.ChunkHom dt) (hV : V.Static)
+    (hVs : ∀ e, V.start e = e) (hN : C.StartNeutral)
+    (r : Renderer ℝ S E P X) (hq : r.Quiet) (hi : Mixer.Idle r.mixer) (hibs : 1 ≤ r.ibs) (k : Nat) (hk : 1 ≤ k)
+    (ch : Nat) (cbs1 cbs2 : List Nat) (hsum : cbs1.sum = cbs2.sum) :
+    (Renderer.runDeviceCallbacks C V ch (Renderer.resize k r) cbs2).2
+      = (Renderer.runDeviceCallbacks C V ch r cbs1).2 := by
+  rw [Renderer.runDeviceCallbacks_eq C V hC hH hV hVs hN ch cbs1 r hq hi,
+    Renderer.runDeviceCallbacks_eq C V hC hH hV hVs hN ch cbs2 _ (Renderer.resize_quiet k r hq)
+      (Mixer.resize_idle k r.mixer hi)]
+  exact (C11_render_partition_invariant C V hC hH hV r hq hibs k hk ch cbs1 cbs2 hsum).1
+
 end
 
 /-! ### non-vacuity -/
@@ -146,6 +164,18 @@ theorem quietProbes_ok (dt : ℝ) : quietProbes.LenPres ∧ quietProbes.ChunkHom
     rw [PFx.run_append]
     have h := hrun' { e with prev := (e.run e.prev xs).1, slices := [] } (e.run e.prev xs).1 ys rfl rfl rfl
     simp only [h]
+
+/-- endless probes whose `on_start_processing` is not counted: they satisfy `StartNeutral` as well -/
+noncomputable def stillProbes : Comps ℝ (PSnd ℝ) (PFx ℝ) Unit :=
+  { quietProbes with sndStart := id, fxStart := id, sndFinished := fun _ => false }
+
+example : stillProbes.StartNeutral := ⟨fun _ => rfl, fun _ => rfl, fun _ => rfl⟩
+example (dt : ℝ) : stillProbes.LenPres ∧ stillProbes.ChunkHom dt :=
+  ⟨⟨(quietProbes_ok dt).1.snd, (quietProbes_ok dt).1.fx, (quietProbes_ok dt).1.sp⟩,
+   ⟨(quietProbes_ok dt).2.snd, (quietProbes_ok dt).2.fx⟩⟩
+/-- a freshly created mixer has nothing in flight -/
+example : Mixer.Idle (Mixer.new (S := PSnd ℝ) (E := PFx ℝ) (P := Unit) 0 [] 4) :=
+  ⟨trivial, rfl, rfl, by simp [Mixer.new], ⟨rfl, rfl⟩⟩
 
 theorem Trk.build_settled {S E P : Type} (id : Nat) (v : ℝ) (fx : List E) (sends : List (Nat × ℝ)) (persist : Bool)
     (ibs : Nat) : Trk.Settled (Trk.build (S := S) (P := P) id v fx sends persist ibs) := by
